@@ -373,7 +373,7 @@ impl<'a> World<'a> {
         };
         // the peer's view
         let got = if told {
-            peer::wait_for(rt::SETTLE_LIMIT, || peer::recvmsg_nb(&self.peers[to], 2048, true).ok().flatten())
+            peer::wait_for(rt::settle_limit(), || peer::recvmsg_nb(&self.peers[to], 2048, true).ok().flatten())
         } else {
             peer::recvmsg_nb(&self.peers[to], 2048, true).ok().flatten()
         };
@@ -619,7 +619,7 @@ impl<'a> World<'a> {
         if got.is_none() && expected {
             let start = std::time::Instant::now();
             let mut n = 0u32;
-            while got.is_none() && start.elapsed() < rt::SETTLE_LIMIT {
+            while got.is_none() && start.elapsed() < rt::settle_limit() {
                 harvest(self.rt);
                 got = self.poll_recv();
                 n += 1;
